@@ -45,6 +45,24 @@ theorem guards_match_source :
     Gen.C14.barsBarSize = 50 ∧ Gen.C14.heatDelimCount = 2 := by
   decide
 
+/-- what the model assumes about the code around the formatter, the reduce table loop and the sparkline
+header, read off /repo on every run: the arguments of every `Formatter(…)` call of the five renderers
+(value, then the range each renderer passes), the closure `termformat.FromExpression` returns (it
+overwrites the whole context and builds the key – no other statement, nothing captured but the compiled
+key and that context), the guard that keeps the reduce table's group cells inside the group columns
+(73473fc), and the visible-width measure of the sparkline header (c54b92c) -/
+theorem render_code_matches_source :
+    Gen.C14.histoFormatCalls = ["val, 0, s.maxVal"] ∧
+    Gen.C14.barsFormatCalls = ["vals[i], 0, s.maxLineVal", "total, 0, s.maxLineVal"] ∧
+    Gen.C14.tableFormatCalls = ["row.Value(colName), min, max", "row.Sum(), min, max", "counter.ColTotal(colName), min, max", "sum, min, max"] ∧
+    Gen.C14.heatFormatCalls = ["item, min, max"] ∧
+    Gen.C14.sparkFormatCalls = ["row.Value(colNames[0]), minVal, maxVal", "row.Value(colNames[len(colNames)-1]), minVal, maxVal"] ∧
+    Gen.C14.fromExpressionClosure = ["*ctx = formatExpressionContext{val, min, max}", "return kb.BuildKey(ctx)"] ∧
+    Gen.C14.fromExpressionState = ["kb, err := expandCompileExpression(expr)", "ctx := &formatExpressionContext{}"] ∧
+    Gen.C14.reduceGroupGuards = ["aggr.GroupColCount() > 0 || table", "idx >= aggr.GroupColCount()"] ∧
+    Gen.C14.sparkHeaderDots = ["len(colNames) - color.StrLen(colNames[0]) - color.StrLen(colNames[len(colNames)-1])"] := by
+  decide
+
 /-! ## scaler laws (∀ val, min, max) -/
 
 /-- `Scale` lies in `[0,1]` for all integers (in particular all of int64), every scaler -/
